@@ -60,7 +60,7 @@ theorem setFields_ok (c : ClassSpec) (valid) (fg : Bool) (l : List (String × JV
         · simp only [List.contains_eq_mem, hk, decide_true, if_true, hv] at h
           simpa [knownOnly, List.filter_cons, hk] using ih _ h
         · simp [hk, hv] at h
-      · by_cases ha : k ∈ c.attrs
+      · by_cases ha : (!c.strictFields && c.attrs.contains k) = true
         · simp [hk, ha] at h
         · cases fg
           · simp [hk, ha] at h
